@@ -101,12 +101,14 @@ def trim (b : Bytes) : Bytes :=
 
 def trimRightSpaces (b : Bytes) : Bytes := (b.reverse.dropWhile (· == 32)).reverse
 
-/-- http.CanonicalHeaderKey on token-only input -/
+/-- textproto's canonicalisation loop: upper-case the first letter and every letter after a `-`, lower-case the rest -/
+def canonAux : Bool → Bytes → Bytes
+  | _, [] => []
+  | up, c :: cs => (if up then toUpper c else toLower c) :: canonAux (c == 45) cs
+
+/-- http.CanonicalHeaderKey: names made of token characters are canonicalised, anything else is returned unchanged -/
 def canonicalKey (b : Bytes) : Bytes :=
-  if b.all isToken then
-    (b.foldl (fun (acc : Bytes × Bool) c =>
-      (acc.1 ++ [if acc.2 then toUpper c else toLower c], c == 45)) ([], true)).1
-  else b
+  if b.all isToken then canonAux true b else b
 
 def digitVal (c : UInt8) : Nat :=
   if isNum c then c.toNat - 48 else if isUpper c then c.toNat - 55 else c.toNat - 87
@@ -156,15 +158,20 @@ def endOfHeaders (p : P) : Except E P := do
     | none => pure { p with contentLength := -1 })
   pure p
 
+/-- the field names announced by the `Trailer` values (`parseTrailer`): each value is trimmed, split at commas when
+    it contains one, the elements trimmed, empty ones dropped, the rest canonicalised -/
+def declaredKeys (trs : List Bytes) : List Bytes :=
+  (trs.map fun v =>
+    let v := trim v
+    if v = [] then []
+    else if !v.contains 44 then [canonicalKey v]
+    else ((splitComma v).map trim).filter (· ≠ []) |>.map canonicalKey).flatten
+
 def addTrailerKeys (p : P) : Except E P :=
   if !p.chunked then pure p
   else if p.tr = [] then pure p
   else
-    let keys := (p.tr.map fun v =>
-      let v := trim v
-      if v = [] then []
-      else if !v.contains 44 then [canonicalKey v]
-      else ((splitComma v).map trim).filter (· ≠ []) |>.map canonicalKey).flatten
+    let keys := declaredKeys p.tr
     if keys.any forbiddenTrailer then throw E.badTrailerKey
     else pure { p with tr := [], trailer := keys.eraseDups }
 
@@ -239,11 +246,11 @@ def byteStep (g : Cfg) (p : P) (tok : Bytes) (c : UInt8) : Out P Ev :=
     else if !isNum c then er .invalidStatusCode else ok p
   | .statusBefore =>
     if c == SP then er .invalidStatus
+    else if c == CR then ok { p with statusCode := 0, st := .statusLF } .keep [.status p.statusCode []]
     else if isAlpha c then ok { p with st := .status } .here else ok p
   | .status =>
-    if c == SP then ok { p with status := if p.status = [] then tok else p.status }
-    else if c == CR then
-      let s := if p.status = [] then tok else p.status
+    if c == CR then
+      let s := if p.status = [] then trimRightSpaces tok else p.status
       ok { p with statusCode := 0, status := [], st := .statusLF } .keep [.status p.statusCode s]
     else ok p
   | .statusLF => if c == LF then ok { p with st := .headerKeyBefore } else er .lfExpected
@@ -324,9 +331,8 @@ def byteStep (g : Cfg) (p : P) (tok : Bytes) (c : UInt8) : Out P Ev :=
       ok { p with hKey := [], hVal := [], st := .trValueLF } .next [.trailer p.hKey v]
     else ok { p with st := .trValue } .here
   | .trValue =>
-    if c == SP then ok { p with hVal := if p.hVal = [] then tok else p.hVal }
-    else if c == CR then
-      let v := if p.hVal = [] then tok else p.hVal
+    if c == CR then
+      let v := if p.hVal = [] then trimRightSpaces tok else p.hVal
       if p.trailer = [] then er .invalidTrailer
       else ok { p with trailer := p.trailer.erase p.hKey, hKey := [], hVal := [], st := .trValueLF } .next
              [.trailer p.hKey v]
